@@ -21,8 +21,9 @@ type Clause struct {
 }
 
 type LoopSpec struct {
-	Invs      []*Clause
-	Decreases *Clause
+	Invs        []*Clause
+	Decreases   *Clause
+	IterEnsures []*Clause // checked at the end of every iteration; it(e) is e at the start of the iteration
 }
 
 type Contract struct {
@@ -45,8 +46,10 @@ type Contract struct {
 	Refines  string
 	NoSafety bool
 	Auto     bool
+	PerReturn bool // check the ensures clauses at every return statement instead of once at the merged exit
 	AutoInv  *Clause // clause used as invariant of every loop (sweep)
-	CallSites map[string][]*Clause // callee name -> obligations at every call of it inside this function
+	CallSites map[string][]*Clause // callee name -> obligations / ghost effects at every call of it inside this function
+	CallSiteMods map[string][]string
 	File     string
 	Line     int
 }
@@ -60,7 +63,7 @@ type ChanSpec struct {
 }
 
 var reFuncHdr = regexp.MustCompile(`^func\s*(?:\(\s*(\w+)\s+\*?([\w.]+)\s*\)\s*)?([\w#.]+)\s*(?:\(([^)]*)\))?\s*(.*)$`)
-var reClause = regexp.MustCompile(`^(requires|ensures|effect|invariant|decreases|assert)(?:\[([\w@ ,.-]+)\])?\s+(.*)$`)
+var reClause = regexp.MustCompile(`^(requires|ensures|effect|invariant|decreases|assert|iter_ensures)(?:\[([\w@ ,.-]+)\])?\s+(.*)$`)
 var reLoop = regexp.MustCompile(`^loop\s+(\d+)\s*:\s*(.*)$`)
 
 func (p *Prog) loadContracts(files ...string) error {
@@ -309,6 +312,8 @@ func (p *Prog) loadContractFile(path string) error {
 			cur.NoInline = true
 		case line == "nosafety":
 			cur.NoSafety = true
+		case line == "per_return":
+			cur.PerReturn = true
 		case strings.HasPrefix(line, "refines "):
 			cur.Refines = prefix + strings.TrimSpace(line[len("refines "):])
 		case strings.HasPrefix(line, "define "):
@@ -322,11 +327,20 @@ func (p *Prog) loadContractFile(path string) error {
 			if m == nil {
 				return fmt.Errorf("%s:%d: bad callsite clause", path, lineNo)
 			}
-			cm := reClause.FindStringSubmatch(m[2])
-			if cm == nil || cm[1] != "requires" {
-				return fmt.Errorf("%s:%d: callsite clause must be `requires`", path, lineNo)
+			if strings.HasPrefix(m[2], "modifies ") {
+				if cur.CallSiteMods == nil {
+					cur.CallSiteMods = map[string][]string{}
+				}
+				for _, mm := range strings.Split(m[2][len("modifies "):], ",") {
+					cur.CallSiteMods[m[1]] = append(cur.CallSiteMods[m[1]], strings.TrimSpace(mm))
+				}
+				continue
 			}
-			c, _ := mkClause("callsite", cm[2], cm[3])
+			cm := reClause.FindStringSubmatch(m[2])
+			if cm == nil || (cm[1] != "requires" && cm[1] != "effect") {
+				return fmt.Errorf("%s:%d: callsite clause must be `requires`, `effect` or `modifies`", path, lineNo)
+			}
+			c, _ := mkClause("callsite-"+cm[1], cm[2], cm[3])
 			if cur.CallSites == nil {
 				cur.CallSites = map[string][]*Clause{}
 			}
@@ -351,6 +365,8 @@ func (p *Prog) loadContractFile(path string) error {
 			}
 			if cm[1] == "decreases" {
 				ls.Decreases = c
+			} else if cm[1] == "iter_ensures" {
+				ls.IterEnsures = append(ls.IterEnsures, c)
 			} else {
 				ls.Invs = append(ls.Invs, c)
 			}
